@@ -330,7 +330,8 @@ func runPatches(u *universe, sched [][]string) (pending []string, reply string) 
 			}
 		}
 		if idx < 0 {
-			return fail("not-pending")
+			_, _ = fail("not-pending")
+			return nil, "res=bad-schedule" // same verdict as the model: this delivery order does not exist
 		}
 		c := pend[idx]
 		pend = append(pend[:idx], pend[idx+1:]...)
@@ -647,7 +648,11 @@ func chainUniverse(grouped bool, depth int, fan, cont []int, relaxStyle, second 
 	if second {
 		u.vulns = append(u.vulns, "W")
 		keep = []string{"W"}
-		u.put([]string{"W"}, outcome{Reqs: []req{{"x", "1.0.0"}, {"y", "2.0.0"}}, Vulns: []string{"V0"}})
+		wv := "2.0.0"
+		if relaxStyle {
+			wv = "^2.0.0"
+		}
+		u.put([]string{"W"}, outcome{Reqs: []req{{"x", "1.0.0"}, {"y", wv}}, Vulns: []string{"V0"}})
 	}
 	n := 1
 	ver := func() string {
@@ -1145,10 +1150,20 @@ func main() {
 				}
 				emit(l, reply)
 			case strings.HasPrefix(l, "pfree "):
+				// a free run is not deterministic (that is its point): the case as given, then 7 more runs alternating
+				// GOMAXPROCS 1/16 with other perturbation patterns, each reported under its own g/r token
 				u, g, r := parseFreeCase(l)
-				fmt.Fprintln(os.Stderr, "@case "+l)
-				emit(l, runFree(u, g, r))
-				out.Flush()
+				head := l[:strings.LastIndex(l, " ")]
+				for k := 0; k < 8; k++ {
+					gk, rk := g, r
+					if k > 0 {
+						gk, rk = []int{16, 1}[k%2], r+k
+					}
+					c := fmt.Sprintf("%s g%dr%d", head, gk, rk)
+					fmt.Fprintln(os.Stderr, "@case "+c)
+					emit(c, runFree(u, gk, rk))
+					out.Flush()
+				}
 			case strings.HasPrefix(l, "cache "):
 				keys, acts := parseCacheCase(l)
 				cr := runCache(keys, acts)
